@@ -162,6 +162,24 @@ def mutable_default_rule(repo, res, rels, RULE):
     res.ok(RULE, "%d functions of %s examined: no mutable default argument is changed or handed out" % (n, ", ".join(r.split("/")[-1] for r in rels)))
 
 
+def _dynamic_field_reader(rmod, fn):
+    """the factory passes one of its parameters to a module-level function that reads attributes of it by a name that
+    is not a constant (getattr(p, name) / p.HasField(name))"""
+    params = {a.arg for a in fn.args.args}
+    for c in ast.walk(fn):
+        if not (isinstance(c, ast.Call) and isinstance(c.func, ast.Name) and c.func.id in rmod.functions):
+            continue
+        callee = rmod.functions[c.func.id]
+        cps = [a.arg for a in callee.args.args]
+        for i, a in enumerate(c.args):
+            if isinstance(a, ast.Name) and a.id in params and i < len(cps):
+                p_ = cps[i]
+                for n in ast.walk(callee):
+                    if isinstance(n, ast.Call) and ((isinstance(n.func, ast.Name) and n.func.id == "getattr" and len(n.args) >= 2 and isinstance(n.args[0], ast.Name) and n.args[0].id == p_ and not isinstance(n.args[1], ast.Constant)) or (isinstance(n.func, ast.Attribute) and n.func.attr == "HasField" and isinstance(n.func.value, ast.Name) and n.func.value.id == p_ and n.args and not isinstance(n.args[0], ast.Constant))):
+                        return True
+    return False
+
+
 def run(repo, res, tier):
     res.rule("PB-LEAF", "leaf factories hand on the numbers of the message unchanged", 12)
     res.rule("PB-STATE", "no mutable default argument is changed or handed out in reader / writer", 1)
@@ -308,6 +326,11 @@ def run(repo, res, tier):
             ok = f in read_fields or (rgeneric and (f in generic_fields or f in fa.hasfield or True if fa.cls.name in ("StateFactory", "SignalStateFactory") else False))
             if fa.cls.name == "StateFactory" and f in ("point", "shape", "time_step"):
                 ok = f in read_fields
+            if not ok and _dynamic_field_reader(rmod, fa.fn):
+                # the message is handed to a function that reads fields by computed name: which fields are read is not
+                # visible in the factory, so `never reads` cannot be concluded
+                res.refuse("%s hands the message to a function that reads fields by computed name; whether %s.%s is read is not decided" % (rq, mname, f))
+                continue
             res.check("PB-READ", "%s.%s written by %s is read by %s" % (mname, f, bname, fa.cls.name), ok, rmod, fa.fn, "%s never reads %s.%s" % (fa.cls.name, mname, f), "the field is written but ignored on reading: the information is lost", qualname=rq)
             # flow
             if f in read_fields and dom is not None:
